@@ -25,6 +25,8 @@ def c12_circumstance(clause, hist, cfgname, item):
     # facts up to the call that diverged (that call included when it is the add_isohybrid itself:
     # on an always-consistent object extent assignment runs inside it)
     fs = L.facts(hist, cfgname, (div[0]['k'] if div[0]['want'] == 'ok' and div[0]['act'] != 'Reopen' else div[0]['k'] - 1) if div else None)
+    if 'reopened_image_had_lost_its_tail' in fs:
+        return 'efi_padding_smaller_than_backup_gpt'
     if clause in ('ApiOutcomeAsModelled', 'Mastered'):
         msg = div[0]['got'] if div else item['expect']['master']
         act = div[0]['act'] if div else 'write'
